@@ -44,6 +44,8 @@ type fixture struct {
 	endBin    []byte
 	end2      *epb.VMLaunchEndorsement // endorses mC only
 	forgedBin []byte
+	authNow   *fx.Authority
+	endNowBin []byte
 	end2Bin   []byte
 }
 
@@ -80,12 +82,16 @@ func res(e error) string {
 func scenarios() []scenario {
 	attA := func(extra []byte) *spb.Attestation { return att.Snp(mA, extra) }
 	attB := func(extra []byte) *spb.Attestation { return att.Snp(mB, extra) }
+	// sharedMeas renders what the caller configured in an Options value: part of the explored state,
+	// and - compared before and after an execution - the oracle that a validator leaves the caller's
+	// configuration alone (a nil SNP section and an empty one are the same configuration).
 	sharedMeas := func(o *verify.Options) func() string {
 		return func() string {
+			out := fmt.Sprintf("now=%v/%d endorsement=%v digest=%d", o.Now.IsZero(), o.Now.UnixNano(), o.Endorsement != nil, len(o.ExpectedUefiSha384))
 			if o.SNP == nil {
-				return "snp=nil"
+				return out + " m= vmsas=0"
 			}
-			return "m=" + hex.EncodeToString(o.SNP.Measurement[:min(4, len(o.SNP.Measurement))])
+			return out + " m=" + hex.EncodeToString(o.SNP.Measurement) + fmt.Sprintf(" vmsas=%d", o.SNP.ExpectedLaunchVMSAs)
 		}
 	}
 	prodPolicy := abi.SnpPolicyToBytes(abi.SnpPolicy{SMT: true, MigrateMA: true})
@@ -178,6 +184,29 @@ func scenarios() []scenario {
 				{{"A'", func() error { return v(attA(nil), f.endBin) }, "nil"}},
 			}, sharedMeas(o)
 		}},
+		{"preconfigured-measurement-buffer/A|B", func(f *fixture, pt func(string)) ([][]call, func() string) {
+			// The caller's Options already carry a measurement (with a backing array the validator
+			// could write into): validators built from it still judge each report on its own.
+			o := &verify.Options{RootsOfTrust: f.auth.Roots(), Now: f.now, SNP: &verify.SNPOptions{Measurement: append(make([]byte, 0, 64), mC...)}}
+			v := verify.SNPValidateFunc(o)
+			return [][]call{
+				{{"A", func() error { return v(attA(nil), f.endBin) }, "nil"}},
+				{{"B", func() error { return v(attB(nil), f.endBin) }, "error"}},
+			}, sharedMeas(o)
+		}},
+		{"default-clock-options-reused/verify;A;B|A", func(f *fixture, pt func(string)) ([][]call, func() string) {
+			// The caller leaves Now unset ("verify at the present time") and keeps using one Options
+			// value: first directly, then through a validator built from it. The authority of this
+			// scenario was bootstrapped at the real present time, so "present" is inside validity.
+			o := &verify.Options{RootsOfTrust: f.authNow.Roots()}
+			v := verify.SNPValidateFunc(o)
+			return [][]call{
+				{{"verify", func() error { return verify.Endorsement(f.endNowBin, o) }, "nil"},
+					{"A", func() error { return v(attA(nil), f.endNowBin) }, "nil"},
+					{"B", func() error { return v(attB(nil), f.endNowBin) }, "error"}},
+				{{"A'", func() error { return v(attA(nil), f.endNowBin) }, "nil"}},
+			}, sharedMeas(o)
+		}},
 		{"closure+plain-verify-sharing-options/A|verify(other)", func(f *fixture, pt func(string)) ([][]call, func() string) {
 			o := &verify.Options{RootsOfTrust: f.auth.Roots(), Now: f.now}
 			v := verify.SNPValidateFunc(o)
@@ -246,6 +275,20 @@ func buildFixture(tag string) *fixture {
 			mc.Fatal("forged endorsement has a different length")
 		}
 	}
+	{
+		// an authority whose certificates start at the real present time, for the scenario in which
+		// the caller leaves Options.Now unset
+		present := time.Now().Add(-time.Hour).UTC().Truncate(time.Second)
+		f.authNow, err = fx.NewAuthority(present, tag+"-now")
+		if err != nil {
+			mc.Fatal("%v", err)
+		}
+		en, err := f.authNow.SignGolden(att.Golden(map[uint32][]byte{2: mA}, nil, true, nil, false, present), present)
+		if err != nil {
+			mc.Fatal("%v", err)
+		}
+		f.endNowBin, _ = proto.Marshal(en)
+	}
 	g2 := att.Golden(map[uint32][]byte{2: mC}, nil, true, nil, false, fx.T0)
 	f.end2, _ = auth.SignGolden(g2, fx.T0)
 	f.end2Bin, _ = proto.Marshal(f.end2)
@@ -262,6 +305,7 @@ func explore(r *mc.Run, f *fixture, sc scenario, bound int) {
 		vhook.PointFn, vhook.BlockFn = s.Point, s.Block
 		defer func() { vhook.PointFn, vhook.BlockFn = nil, nil }()
 		threads, shared := sc.build(f, s.Point)
+		configured := shared()
 		results := make([][]string, len(threads))
 		for ti, calls := range threads {
 			ti, calls := ti, calls
@@ -308,6 +352,11 @@ func explore(r *mc.Run, f *fixture, sc scenario, bound int) {
 			r.Violation("deadlock/"+sc.name, id, "no call can continue: every unfinished call waits for a lock another unfinished call holds (pcs "+strings.Join(s.Trace[max(0, len(s.Trace)-4):], " ")+")", map[string]any{"schedule": s.Trace})
 		case s.Aborted:
 			r.Violation("horizon/"+sc.name, id, "execution exceeded the step horizon (livelock?)", nil)
+		}
+		if after := shared(); after != configured && !s.Deadlock && !s.Aborted {
+			r.Violation("caller-options-modified/"+sc.name, id,
+				fmt.Sprintf("scenario %s: the Options value the caller configured reads %q before and %q after the calls: later calls no longer depend only on what the caller configured", sc.name, configured, after),
+				map[string]any{"schedule": s.Trace})
 		}
 		for ti, calls := range threads {
 			for ci, cl := range calls {
